@@ -37,5 +37,10 @@ func plans() map[string]Plan {
 		Thorough: []Job{{Name: "stepspace", Engine: "e1"}, {Name: "battles", Engine: "e2"}},
 		QuickCap: 240, ThoroughCap: 3000,
 		Assumptions: baseAssumptions}
+	p["C07"] = Plan{Prop: "C07",
+		Quick:       []Job{{Name: "expressions", Engine: "e4"}},
+		Thorough:    []Job{{Name: "expressions", Engine: "e4"}},
+		QuickCap:    300, ThoroughCap: 3000,
+		Assumptions: append([]string{"the expected value is computed from the expression tree with math/big; the replay path re-derives it from the source text with an independent token evaluator (ref/expr.go)"}, baseAssumptions...)}
 	return p
 }
